@@ -70,6 +70,21 @@ def rule_dispatch(program, ctx):
                         if isinstance(e, ast.Compare) and len(e.ops) == 1 and dotted(e.left) == kname and isinstance(e.comparators[0], ast.Constant) and e.comparators[0].value == lit \
                                 and ((isinstance(e.ops[0], ast.Eq) and pol) or (isinstance(e.ops[0], ast.NotEq) and not pol)):
                             owner, owner_body = b, blk
+                        # `key in TABLE` / `key in ("since", "until")` with a constant collection that lists the key
+                        if isinstance(e, ast.Compare) and len(e.ops) == 1 and dotted(e.left) == kname and ((isinstance(e.ops[0], ast.In) and pol) or (isinstance(e.ops[0], ast.NotIn) and not pol)):
+                            coll = e.comparators[0]
+                            keys = None
+                            if isinstance(coll, (ast.Tuple, ast.List, ast.Set)):
+                                keys = [x.value for x in coll.elts if isinstance(x, ast.Constant)]
+                            elif isinstance(coll, ast.Name):
+                                for st in cm._module.tree.body:
+                                    if isinstance(st, ast.Assign) and any(dotted(t) == coll.id for t in st.targets):
+                                        if isinstance(st.value, ast.Dict):
+                                            keys = [k.value for k in st.value.keys if isinstance(k, ast.Constant)]
+                                        elif isinstance(st.value, (ast.Tuple, ast.List, ast.Set)):
+                                            keys = [x.value for x in st.value.elts if isinstance(x, ast.Constant)]
+                            if keys and lit in keys:
+                                owner, owner_body = b, blk
             if owner:
                 break
         if owner is None:
